@@ -19,8 +19,9 @@ type c10Scenario struct {
 	InitLen int        `json:"init_len"`
 	FIFO    bool       `json:"fifo"`
 	Cap     int        `json:"cap"`
-	Progs   [][]string `json:"programs"`              // per thread: operation names
-	Policy  bool       `json:"push_policy,omitempty"` // an accept-everything push policy is installed (Push takes the policy path)
+	Progs   [][]string `json:"programs"`                   // per thread: operation names
+	Policy  bool       `json:"push_policy,omitempty"`      // a push policy is installed (Push takes the policy path)
+	Reject  bool       `json:"policy_rejects_b,omitempty"` // ... and it rejects the second value of every two-value batch
 	Kind    string     `json:"kind,omitempty"`
 }
 
@@ -72,6 +73,9 @@ func c10Op(name, tok string) (run func(s stackage.Stack) string, model func(m *l
 		return func(s stackage.Stack) string { s.Reverse(); return "" }, func(m *listModel) string { m.reverse(); return "" }
 	case "Reset":
 		return func(s stackage.Stack) string { s.Reset(); return "" }, func(m *listModel) string { m.reset(); return "" }
+	case "SetMutex":
+		// enabling locking again on a stack that already locks must be a no-op
+		return func(s stackage.Stack) string { s.SetMutex(); return "" }, func(m *listModel) string { return "" }
 	}
 	panic("unknown op " + name)
 }
@@ -101,7 +105,13 @@ func (sc c10Scenario) mk() stackage.Stack {
 	s.Push(sc.initial()...)
 	s.SetMutex()
 	if sc.Policy {
-		s.SetPushPolicy(func(...any) error { return nil })
+		rej := sc.Reject
+		s.SetPushPolicy(func(x ...any) error {
+			if v, ok := x[0].(string); rej && ok && strings.HasSuffix(v, "b") {
+				return errCat
+			}
+			return nil
+		})
 	}
 	return s
 }
@@ -166,7 +176,7 @@ func (sc c10Scenario) sequentialOutcomes() map[string]bool {
 			out[outcomeString(results, showList(m.items))] = true
 		}
 	}
-	m := &listModel{capk: sc.Cap, fifo: sc.FIFO}
+	m := &listModel{capk: sc.Cap, fifo: sc.FIFO, rejectB: sc.Policy && sc.Reject}
 	m.items = sc.initial()
 	rec(m, make([][]string, len(ths)))
 	return out
@@ -203,6 +213,10 @@ func c10Check(c *Ctx, sc c10Scenario, bound int, count bool) (execs int, complet
 		}
 		if x.timeout {
 			c.Violation("hang:"+sig, desc("a thread did not reach its next scheduling point within 20 s (blocked outside the lock model?)"), rep, size)
+			return
+		}
+		if x.protocol != "" {
+			c.Violation("lock-protocol:"+sig, desc("lock protocol broken: "+x.protocol), rep, size+len(x.choices))
 			return
 		}
 		if len(x.panicked) > 0 {
@@ -289,6 +303,16 @@ func c10Scenarios(c *Ctx) (out []c10Scenario, bounds []int) {
 		}
 		out = append(out, c10Scenario{InitLen: cf[0], FIFO: cf[1] == 1, Cap: cf[2], Progs: [][]string{{"Push2"}, {"Push2"}, {"Pop"}}, Policy: true})
 		bounds = append(bounds, -1)
+		// a policy that rejects the second value of a batch (the error is recorded while the lock is held)
+		for _, b := range ops[:8] {
+			out = append(out, c10Scenario{InitLen: cf[0], FIFO: cf[1] == 1, Cap: cf[2], Progs: [][]string{{"Push2"}, {b}}, Policy: true, Reject: true})
+			bounds = append(bounds, -1)
+		}
+		// SetMutex issued again while others are inside or queued for a mutator
+		for _, b := range ops[:8] {
+			out = append(out, c10Scenario{InitLen: cf[0], FIFO: cf[1] == 1, Cap: cf[2], Progs: [][]string{{"SetMutex", b}, {"Push1"}, {"Pop"}}})
+			bounds = append(bounds, 2)
+		}
 	}
 	if c.Quick() {
 		// a slice of 2x2 and 3x1 so that the per-change run also sees longer programs
